@@ -27,6 +27,7 @@ impl<'de, R: Reader<'de>> Parser<R> {
                 &&& (p >= s.len() ==> res.is_none() && final(self).read.idx() == s.len())
                 &&& (final(self).nospace_start == -128 || final(self).nospace_start <= p)
                 &&& old(self).read.idx() <= p <= s.len()
+                &&& (p < s.len() ==> !is_ws(s[p]))
             }),
 //@subst /unsafe \{ &\*\(chunk\.as_ptr\(\) as \*const \[_; 64\]\) \}/ => as_array64(chunk)
 //@after /let reader = &mut self.read;/
@@ -136,6 +137,7 @@ impl<'de, R: Reader<'de>> Parser<R> {
                 &&& (p < s.len() ==> res == Some(s[p]) && final(self).read.idx() == p)
                 &&& (p >= s.len() ==> res.is_none() && final(self).read.idx() == s.len())
                 &&& old(self).read.idx() <= p <= s.len()
+                &&& (p < s.len() ==> !is_ws(s[p]))
             }),
 //@before /self.read.backward\(1\);/
         proof { lemma_ws_end_bounds(old(self).read.data(), old(self).read.idx() as int); }
